@@ -133,6 +133,11 @@ enum Op {
     DropTl { thread: usize },
     InstallRt { rt: usize, thread: usize },
     DropRt { rt: usize },
+    /// the same three drops, performed by a panic unwinding through the guard's owner (what happens
+    /// to a test-sink guard when the test's assertion fails)
+    DetachUnwinding,
+    DropTlUnwinding { thread: usize },
+    DropRtUnwinding { rt: usize },
     Append { thread: usize, ctx: Option<usize>, kind: AppendKind },
 }
 
@@ -223,6 +228,20 @@ impl Lane {
                 let _ = self.workers[thread].run(|st| drop(st.tl_guard.take()));
                 self.model.tl[thread] = None;
             }
+            Op::DropTlUnwinding { thread } => {
+                let _ = self.workers[thread].run(|st| drop_by_unwinding(st.tl_guard.take()));
+                self.model.tl[thread] = None;
+            }
+            Op::DropRtUnwinding { rt } => {
+                drop_by_unwinding(self.rt_guards[rt].take());
+                self.model.rt[rt] = None;
+            }
+            Op::DetachUnwinding => {
+                if let Some(h) = self.attach_handle.take() {
+                    drop_by_unwinding(h);
+                    self.model.attached = None;
+                }
+            }
             Op::InstallRt { rt, thread } => {
                 let (k, sink) = self.new_sink();
                 let ops = self.ops.clone();
@@ -309,8 +328,23 @@ impl Lane {
     }
 }
 
+fn drop_by_unwinding<T>(x: T) {
+    let r = catch_unwind(AssertUnwindSafe(move || {
+        let _held = x;
+        std::panic::panic_any("intentional: guard dropped by unwinding");
+    }));
+    assert!(r.is_err());
+}
+
 fn gen_op(rng: &mut Rng) -> Op {
     let thread = rng.usize_below(3);
+    if rng.below(40) == 0 {
+        return match rng.below(3) {
+            0 => Op::DetachUnwinding,
+            1 => Op::DropTlUnwinding { thread },
+            _ => Op::DropRtUnwinding { rt: rng.usize_below(2) },
+        };
+    }
     match rng.below(14) {
         0 | 1 => Op::Attach { thread },
         2 => Op::DetachDrop,
